@@ -673,6 +673,10 @@ impl Driver {
             let n = self.idn(&id);
             self.first_pkt.get(&n).cloned()
         };
+        self.srv.client_key = match &self.snapshot().mechanism {
+            VerifMechanism::LongTerm(lt) => lt.params.as_ref().map(|p| p.key.clone()),
+            _ => None,
+        };
         let key: Vec<u8> = match self.cfg.mech.as_str() {
             "lt" => self.srv.add_lt_attrs(&self.cfg, m, req_bytes.as_deref(), &mut items),
             _ => obs::st_key(&self.cfg.password),
